@@ -425,7 +425,7 @@ def specs(tier: str):
         out += gather_specs("gather_k3_depth2", ("0", "0", "0"), 99, depth=2, cond=3000, partition=True)
         out += gather_specs("gather_3keys_k3", ("0.1", "0.2", "0.10"), 99, cond=3000, partition=True)
     # ---- L3 nested (partitioned on the outer length n)
-    K = 3 if quick else 5
+    K = 3 if quick else 4
     cs = [f"c{i}" for i in range(K)]
     for chained in (True, False):
         for n, m0 in ((0, None), (1, None), (2, 0), (2, 1), (2, 2)):
